@@ -18,6 +18,8 @@ TRUSTED_BASE = [
     "the specification Jamm/Model/Spec.lean and the statements in Jamm/Props",
     "correspondence harness (/verif/harness, Rust, public API of /repo built from the working tree) and Lean driver glue (lean/Driver)",
     "Rust std binary_search / sort are correct on their preconditions",
+    "the verdicts of the correspondence runs are computed by compiled Lean code (driver executables jmodel / japi): the Lean compiler and runtime, and the definitions used by the driver that live outside Jamm/Model (Driver/*.lean)",
+    "definitions that appear in property statements but live under Jamm/Proofs (TreeInv, GoodView/GoodSubs, Sys.runEvs, Sys.Covers, PiecesTight, TxOp) are part of what a reader of the statements must read",
 ]
 
 ASSUME_COMMON = [
@@ -189,6 +191,17 @@ def nontrivial(h):
     return muts >= 3 and commits >= 1
 
 
+# minimum number of comparisons each tie must make, as a fraction of the successful commits of the run
+# (measured values are 2-10 times higher; a generator or driver change that silently disables a tie trips these)
+TIE_FLOORS = {
+    "C01": {"committed_shapes_predicted": 1.0, "overlays_predicted": 0.8, "pages_reencoded": 3.0, "commits_with_page_prediction": 0.3, "file_checks": 0.5},
+    "C05": {"committed_shapes_predicted": 1.0, "overlays_predicted": 0.8, "pages_reencoded": 3.0, "commits_with_page_prediction": 0.3, "file_checks": 0.5},
+    "C07": {"overlays_predicted": 2.0},
+    "C03": {"free_list_protocol_commits_compared": 0.5, "file_checks": 0.5},
+    "C10": {"free_list_protocol_commits_compared": 0.5, "file_checks": 0.5},
+}
+
+
 def hist_runner(prop, tier, seed, scratch, spec):
     """default programme: history suites through harness + Lean driver"""
     suites = spec["suites"](tier, seed)
@@ -226,7 +239,26 @@ def hist_runner(prop, tier, seed, scratch, spec):
                     "commits_whose_freed_pages_and_new_page_count_were_predicted": stats.get("commits_whose_freed_pages_were_predicted", 0),
                     "invariants_evaluated_on_real_trees": "Sep (wfsb), tightness (tightB / tightMB after the rebalance replay), uniform depth, no empty branch"},
     }
-    return {"violations": [(p_, d, "") for p_, d in reports], "coverage": cov, "explored": len(results), "known": []}
+    # coverage floors: a tie that silently stops comparing must not pass as "nothing found"
+    commits_ok = stats.get("commit/ok", 0)
+    ties = {
+        "commits_ok": commits_ok,
+        "free_list_protocol_commits_compared": stats.get("proto_commits_compared", 0),
+        "committed_shapes_predicted": stats.get("layerc_buckets_compared", 0),
+        "overlays_predicted": stats.get("overlay_trees_predicted", 0),
+        "pages_reencoded": stats.get("pages_reencoded", 0),
+        "commits_with_page_prediction": stats.get("commits_whose_freed_pages_were_predicted", 0),
+        "file_checks": stats.get("file/ok", 0),
+    }
+    floors = TIE_FLOORS.get(prop, {})
+    cov["tie_counters"] = ties
+    cov["tie_floors"] = {k: "%.2f x commits_ok" % v for k, v in floors.items()}
+    viol = [(p_, d, "") for p_, d in reports]
+    low = ["%s=%d < %.2f x %d commits" % (k, ties[k], f, commits_ok) for k, f in floors.items() if ties[k] < f * commits_ok]
+    if low and not viol:
+        pth = vlib.write_replay(prop, "coverage", [], {"broken": "a correspondence tie compares far fewer cases than the histories contain: " + "; ".join(low), "tie_counters": ties})
+        viol.append((pth, "correspondence coverage below its floor: " + "; ".join(low), " no-failing-input-found"))
+    return {"violations": viol, "coverage": cov, "explored": len(results), "known": []}
 
 
 def own_check_stream(seed, scratch, q):
@@ -287,6 +319,12 @@ def own_check_stream(seed, scratch, q):
             os.makedirs(os.path.dirname(keep), exist_ok=True)
             shutil.copy(pth, keep)
             problems.append((keep, "the Lean model of the database's own check accepts a damaged image that the real check rejects (%s)" % io[:80]))
+    lost = sum(v for k, v in counts.items() if "missing" in k or "noheader" in k)
+    if items and lost * 10 > len(items):
+        msg = "the own-check stream got no verdict for %d of %d images: %s" % (lost, len(items), dict(counts))
+        problems.append((msg, msg))
+    if not items:
+        problems.append(("the own-check stream produced no image", "the own-check stream produced no image"))
     return len(items), problems, dict(counts)
 
 
@@ -346,8 +384,20 @@ def run(prop, tier, seed, replay, t0):
     if b.lean_ok:
         thms, auditlog = vlib.audit(prop)
     forb = vlib.scan_forbidden()
+    thms = [t for t in thms if not re.search(r"(sizeOf_spec|injEq|noConfusion|\.rec$|\.casesOn$)", t["name"])]
     bad_thms = [t for t in thms if not t["ok"]]
     obligations_broken = list(b.failed_obligations)
+    # the property theorems this check stands for (committed list): one that disappears or is renamed is a
+    # broken obligation, so that a statement cannot be dropped silently
+    try:
+        expected = json.load(open(os.path.join(vlib.ROOT, "tools", "expected_theorems.json"))).get(prop, [])
+    except (OSError, ValueError):
+        expected = []
+    if b.lean_ok and thms:
+        have = {t["name"] for t in thms}
+        for name in expected:
+            if name not in have:
+                obligations_broken.append("property theorem Jamm.Props.%s.%s is no longer present" % (prop, name))
     if b.lean_ok and not thms:
         obligations_broken.append("audit found no theorem in Jamm.Props.%s (%s)" % (prop, (auditlog or ("", ""))[1][-300:]))
     for t in bad_thms:
@@ -1031,6 +1081,9 @@ def run_conc_batch(scratch, tag, prog, commits, readers, writers, mode, margs):
             nruns = int(m.group(1)) if m else 0
     if rc not in (0, 3):
         bad.append("run ? program=%s commits=%d readers=%d writers=%d preempt=- random=- ## harness died rc=%d %s" % (prog, commits, readers, writers, rc, e[-200:]))
+    elif rc2 != 0 or nruns == 0:
+        # the verdicts come from the driver: no summary / no runs means nothing was compared
+        bad.append("run ? program=%s commits=%d readers=%d writers=%d preempt=- random=- ## the Lean driver produced no verdicts (rc=%d runs=%d) %s" % (prog, commits, readers, writers, rc2, nruns, e2[-200:]))
     try:
         os.remove(out)
     except OSError:
@@ -1131,12 +1184,24 @@ def c13_runner(prop, tier, seed, scratch, spec):
             times[cur] = {}
         elif len(f) >= 3 and f[1] in ("open-called", "open-returned", "about-to-close"):
             times[cur].setdefault(f[0], {})[f[1]] = int(f[2])
+    # every worker that was started must have reported (a worker that dies silently is a failure, not a pass)
+    silent = []
+    for l in obs:
+        f = l.split(" ")
+        if f[0] == "scenario":
+            m_ = re.search(r"workers=(\S*)", l)
+            for w in (m_.group(1).split(",") if m_ and m_.group(1) else []):
+                if "open-called" not in times.get(f[1], {}).get(w, {}):
+                    silent.append((f[1], w))
     for sc_, ws in times.items():
         for a, ta in ws.items():
             for b, tb in ws.items():
                 if a != b and "open-called" in ta and "about-to-close" in tb and "open-returned" in tb and tb["open-returned"] < ta["open-called"] < tb["about-to-close"]:
                     contended += 1
     seen = set()
+    for scn, w in silent[:3]:
+        rp = vlib.write_replay(prop, "silent-%s" % scn, [], {"broken": "worker %s of scenario %s was started but logged nothing" % (w, scn)})
+        violations.append((rp, "scenario %s: worker %s was started but reported nothing" % (scn, w), ""))
     for l in out.split("\n"):
         if l.startswith("PROCOK "):
             n_ok += 1
@@ -1207,6 +1272,7 @@ def c14_runner(prop, tier, seed, scratch, spec):
         elif f[0] == "SEND":
             send[f[1]] = f[2] == "notSend=true"
     methods = json.load(open(os.path.join(vlib.WORK, "api-methods.json"))) if os.path.exists(os.path.join(vlib.WORK, "api-methods.json")) else []
+    no_table = not methods
     wd = os.path.join(scratch.dir, "api")
     os.makedirs(wd, exist_ok=True)
     jobs = []
@@ -1253,8 +1319,11 @@ def c14_runner(prop, tier, seed, scratch, spec):
             continue
         rp = os.path.join(vlib.WORK, "replays", "C14-%s.rs" % name)
         os.makedirs(os.path.dirname(rp), exist_ok=True)
-        open(rp, "w").write("// %s\n" % problem + src)
+        open(rp, "w").write("// %s\n// expect=%s\n" % (problem, exp) + src)
         violations.append((rp, "%s: %s" % (name, problem), ""))
+    if no_table:
+        rp = vlib.write_replay(prop, "no-api-table", [], {"broken": "the regenerated public API table is missing or empty: only the hand-written programs were run"})
+        violations.append((rp, "the public API table could not be regenerated: the per-method escape programs were not run", " no-failing-input-found"))
     if unclassified:
         rp = vlib.write_replay(prop, "unclassified-api", [], {"broken": "public methods without an escape program template (tools/apicheck.py CALLS)", "methods": unclassified})
         violations.append((rp, "new public API not covered: %s" % ", ".join(unclassified), " no-failing-input-found"))
@@ -1273,14 +1342,21 @@ def c14_runner(prop, tier, seed, scratch, spec):
 
 
 def c14_replay(prop, replay, scratch):
+    """re-compiles (and, if it compiles, runs) the program; the violation is reported again only if the
+    verdict still differs from the model's prediction recorded in the file (`// expect=…`)"""
     import apicheck
     rlib, err = apicheck.build_lib()
     src = open(replay).read()
+    m = re.search(r"^// expect=(accept|reject)", src, flags=re.M)
+    exp = m.group(1) if m else "reject"
     r = apicheck.compile_and_run(scratch.dir, "replay", src, rlib)
-    print("REPLAY rustc=%s codes=%s ran_ok=%s" % (r["verdict"], r.get("codes"), r.get("run_ok")))
-    print(open(replay).readline().strip())
-    print("VIOLATION property=%s replay=%s" % (prop, replay))
-    return 1
+    print("REPLAY predicted=%s rustc=%s codes=%s ran_ok=%s" % (exp, r["verdict"], r.get("codes"), r.get("run_ok")))
+    bad = r["verdict"] != exp or (r["verdict"] == "accept" and not r.get("run_ok"))
+    if bad:
+        print("VIOLATION property=%s replay=%s" % (prop, replay))
+        return 1
+    print("REPLAY ok")
+    return 0
 
 
 PROPS["C14"] = {"runner": c14_runner, "replay": c14_replay, "level": "other", "trusted": ["rustc is the ground truth for 'rejected'; nightly rustdoc JSON (format 57) for the API table"],
